@@ -166,8 +166,13 @@ Arg(ts, e) == ArgD(ts, e, FALSE)
 UsesV(ts) == HasTok(ts, {"V","VD","VU","VL"})
 UsesN(ts) == HasTok(ts, {"AR"})
 Init == toks = <<>> /\ phase = "s" /\ vI = 1 /\ nI = 1 /\ iI = 1
+\* After an unterminated ${ no token containing } is added, so that the opener stays unterminated
+\* (otherwise `${` `a` `~` `{a,b}` is bash's undocumented case-toggling ${a~pattern}, `${` `a` `{a,b}`
+\* a bad substitution, ...: parameter-expansion operators are C21's and C12's subject, not this one's).
+ClosesBrace(t) == t \in {"BR","V","VD","VU","VL"}
 AddTok == /\ phase = "s" /\ Len(toks) < MaxTok
-          /\ \E t \in TokSet : toks' = Append(toks, t)
+          /\ \E t \in TokSet : /\ (ClosesBrace(t) => ~HasTok(toks, {"OB"}))
+                               /\ toks' = Append(toks, t)
           /\ UNCHANGED <<phase, vI, nI, iI>>
 ChooseEnv == /\ phase = "s" /\ Len(toks) >= 1
              /\ \E i \in (IF UsesV(toks) THEN VSet ELSE {1}) : vI' = i
